@@ -335,57 +335,65 @@ func seqWorker(shard, nsh int) {
 		deadline = time.Now().Add(40 * time.Minute)
 	}
 	cfgs := poolConfigs()
-	idx := make([]int, d)
-	count := 0
 	capped := false
-	for {
-		count++
-		if count%nsh == shard {
-			seq := make([]symbol, d)
-			for i, k := range idx {
-				seq[i] = alpha[k]
-			}
-			for _, start := range []string{"H0", "H1"} {
-				for _, cn := range []string{"default", "tiny", "nolocals"} {
-					r := runSeq(w, cn, cfgs[cn], start, seq)
-					res.Evals++
-					if len(r.fails) > 0 {
-						oc := oracleOf(r.fails[0])
-						sig := cn + "/" + oc
-						if !sigSeen[sig] {
-							sigSeen[sig] = true
-							if r2 := runSeq(w, cn, cfgs[cn], start, seq); len(r2.fails) == 0 {
-								ev.Broken("C15 verdict flipped on re-run: %v", r.fails)
+	count := 0
+	enumerate := func(d int, starts, cns []string) {
+		idx := make([]int, d)
+		for {
+			count++
+			if count%nsh == shard {
+				seq := make([]symbol, d)
+				for i, k := range idx {
+					seq[i] = alpha[k]
+				}
+				for _, start := range starts {
+					for _, cn := range cns {
+						r := runSeq(w, cn, cfgs[cn], start, seq)
+						res.Evals++
+						if len(r.fails) > 0 {
+							oc := oracleOf(r.fails[0])
+							sig := cn + "/" + oc
+							if !sigSeen[sig] {
+								sigSeen[sig] = true
+								if r2 := runSeq(w, cn, cfgs[cn], start, seq); len(r2.fails) == 0 {
+									ev.Broken("C15 verdict flipped on re-run: %v", r.fails)
+								}
+								res.Violations = append(res.Violations, ev.Violation{Scenario: "sequential", Oracle: oc, CaseID: cn,
+									Detail: map[string]interface{}{"seq": seq, "config": cn, "start": start, "fails": r.fails, "trace": r.trace}})
 							}
-							res.Violations = append(res.Violations, ev.Violation{Scenario: "sequential", Oracle: oc, CaseID: cn,
-								Detail: map[string]interface{}{"seq": seq, "config": cn, "start": start, "fails": r.fails, "trace": r.trace}})
+							continue
 						}
-						continue
-					}
-					classes[hash64(cn+"|"+start+"|"+r.trace)] = true
-					if len(res.Samples) < 2 && strings.Count(r.trace, ":ok") >= d-1 && strings.Contains(r.trace, "hH1x") {
-						res.Samples = append(res.Samples, map[string]interface{}{"config": cn, "start": start, "trace": r.trace})
+						classes[hash64(cn+"|"+start+"|"+r.trace)] = true
+						if len(res.Samples) < 2 && strings.Count(r.trace, ":ok") >= d-1 && strings.Contains(r.trace, "hH1x") {
+							res.Samples = append(res.Samples, map[string]interface{}{"config": cn, "start": start, "trace": r.trace})
+						}
 					}
 				}
+				if count%512 == 0 && time.Now().After(deadline) {
+					capped = true
+					break
+				}
 			}
-			if count%512 == 0 && time.Now().After(deadline) {
-				capped = true
+			// odometer
+			i := d - 1
+			for i >= 0 {
+				idx[i]++
+				if idx[i] < len(alpha) {
+					break
+				}
+				idx[i] = 0
+				i--
+			}
+			if i < 0 {
 				break
 			}
 		}
-		// odometer
-		i := d - 1
-		for i >= 0 {
-			idx[i]++
-			if idx[i] < len(alpha) {
-				break
-			}
-			idx[i] = 0
-			i--
-		}
-		if i < 0 {
-			break
-		}
+	}
+	enumerate(d, []string{"H0", "H1"}, []string{"default", "tiny", "nolocals"})
+	if tier == "thorough" && !capped {
+		// one level deeper for the default configuration from the genesis head
+		enumerate(d+1, []string{"H0"}, []string{"default"})
+		res.Counters["sequence_depth_default_H0"] = int64(d + 1)
 	}
 	// journal family: a pool that journals its local transactions, with the node restarting in between
 	jalpha := []symbol{{"addl", "A0p100"}, {"addl", "A0p110"}, {"addl", "A2p100"}, {"addl", "B0p100"}, {"addr", "A1p100"},
